@@ -44,7 +44,7 @@ def cases(tier, seed):
         d = bool(rs.rand() < .5)
         recs.append((['er', n, float(rs.choice([.1, .2, .3, .5])), d, int(rs.randint(1 << 30))], d))
     for i, (g, d) in enumerate(recs):
-        out.append({'kind': 'sp', 'g': g, 'directed': d, 'ws': seed * 100 + i, 'schemes': ['bin', 'int', 'dyad', 'real']})
+        out.append({'kind': 'sp', 'g': g, 'directed': d, 'ws': seed * 100 + i, 'schemes': ['bin', 'int', 'dyad', 'real', 'logu']})
     # equal-length alternatives are where hops and Pmat can drift apart: many dense graphs with tied lengths
     for t in range(4000 if thorough else 800):
         n = int(rs.randint(5, 13))
@@ -71,6 +71,8 @@ def run_sp(case, bct, REC):
         trs = [None] if sc in ('bin', 'int') else [None, 'inv', 'log']
         if sc == 'decimal':
             trs = [None, 'inv']
+        if sc == 'logu':
+            trs = [None]
         for tr in trs:
             REC.tag(PROP, 'exec')
             with np.errstate(all='ignore'):
@@ -114,9 +116,9 @@ def run_sp(case, bct, REC):
                         why = 'step along a missing connection'
                     else:
                         tot = sum(E[a, b] for a, b in zip(seq[:-1], seq[1:]))
-                        if not np.isclose(tot, SPL[s, t], rtol=1e-12, atol=1e-15):
+                        if not np.isclose(tot, SPL[s, t], rtol=1e-12, atol=0):
                             why = 'total length %r differs from reported %r' % (tot, SPL[s, t])
-                        elif not np.isclose(tot, D[s, t], rtol=1e-9, atol=1e-15):
+                        elif not np.isclose(tot, D[s, t], rtol=1e-9, atol=0):
                             why = 'total length %r is not the minimum %r' % (tot, D[s, t])
                     if why:
                         bad = bad or {'s': s, 't': t, 'path': seq, 'why': why}
